@@ -24,7 +24,7 @@ KINDS = [('tcp', 'tcp'), ('tcp', 'tcp'), ('udp', 'tcp'), ('serial', 'rtu')]
 
 
 def build(rng, kind, framing, ncallers, nops, lat):
-    gen = cc.OpGen(rng, framing)
+    gen = cc.OpGen(rng, framing, extended=rng.choice([0.0, 0.0, 0.25, 0.5]))
     callers = []
     for ci in range(ncallers):
         ops = []
